@@ -242,13 +242,16 @@ def san_key(out):
         return ("fault-sig" + m.group(1), "", "", m.group(0))
     return None
 
-def batch_run(exe, lines, timeout=300, env=None, per_case_prefix=None, max_crashes=400, on_excess="infra"):
+def batch_run(exe, lines, timeout=300, env=None, per_case_prefix=None, max_crashes=400, on_excess="infra", max_hangs=None):
     """Feed `lines` (list of str, one case each) to `exe` on stdin; the driver answers exactly one stdout
     line per case.  If the driver dies (sanitizer abort, fault, watchdog) the offending case gets
     a result {'crash': (kind, fn, file, detail), 'raw': tail} and the run resumes after it.
-    Returns list parallel to `lines`: str (the answer line) or dict (crash)."""
+    Returns list parallel to `lines`: str (the answer line) or dict (crash).
+    max_hangs (optional): deaths by the driver's non-termination watchdog ('fault-sig14') or the timeout of this call ('timeout')
+    cost seconds each, unlike a sanitizer abort; after that many of them the rest of the batch is not run (entries
+    {'crash': ('skipped', ...), 'skipped': True}), whatever max_crashes / on_excess say."""
     res = [None] * len(lines)
-    i = 0
+    i = 0; hangs = 0
     e = {"ASAN_OPTIONS": "detect_leaks=0:abort_on_error=0:detect_stack_use_after_return=1:allocator_may_return_null=1",
          "UBSAN_OPTIONS": "print_stacktrace=1:halt_on_error=1"}
     if env: e.update(env)
@@ -277,6 +280,12 @@ def batch_run(exe, lines, timeout=300, env=None, per_case_prefix=None, max_crash
         res[i + k] = {"crash": key, "raw": out[-2500:]}
         i = i + k + 1
         restarts += 1
+        if max_hangs is not None and key[0] in ("fault-sig14", "timeout"):
+            hangs += 1
+            if hangs >= max_hangs:
+                for j in range(i, len(lines)):
+                    if res[j] is None: res[j] = {"crash": ("skipped", "", "", "not run: %d calls did not return before it" % hangs), "skipped": True, "raw": ""}
+                return res
         if restarts > max_crashes:
             if on_excess == "skip":
                 # the code under test dies on case after case (each death is already a verdict of its own): the rest of the
